@@ -623,7 +623,8 @@ class Lowering:
                     out.append(self.bind_target(t, env, self.mk_item(value, ("const", i))))
             return ("tuple", tuple(out))
         if isinstance(target, ast.Starred):
-            return self.bind_target(target.value, env, value)
+            inner = self.bind_target(target.value, env, value)
+            return ("star", inner) if value is None else inner
         # attribute / subscript targets are handled by the summariser as stores
         return self.expr(target, env)
 
